@@ -90,7 +90,10 @@ CHECK_DEADLOCK FALSE
     return flow.standard(
         'C11', tier, behav.relayclient_design_jobs(wd, False) + pipe_jobs, 'c11', 'Trace_Relay', 'Trace_Relay.cfg',
         [canary_false_delivery, canary_class, canary_other, canary_ownclass],
-        extras=[{'driver': 'c11m', 'module': 'Trace_Relay', 'cfg': 'Trace_Relay.cfg', 'args': (behfile,)}],
+        extras=[{'driver': 'c11m', 'module': 'Trace_Relay', 'cfg': 'Trace_Relay.cfg', 'args': (behfile,)},
+                # the stalls of C14 (every stage of the SMTP / LMTP conversation, pipe children that outlive their time limit with
+                # 1-3 recipients, an HTTP peer that never answers) judged by the C11 clauses: what was not delivered in time is not delivered
+                {'driver': 'c14r', 'module': 'Trace_Relay', 'cfg': 'Trace_Relay.cfg'}],
         extra_cov={'model_replay': infos},
         level='model_checking',
         rule='downstream scripts for the real StaticSmtpRelay and StaticLmtpRelay: a deviating reply class {4xx, 5xx, '
